@@ -1092,7 +1092,10 @@ class HeteroscedasticConditional(conditional.ConditionalGaussianPDF):
     
     def _update_omega_star(self, p_x: pdf.GaussianPDF, y: Float[Array, "N Dy"], W_i: Float[Array, "Dx+1"], a_i: Float[Array, "Dy"], omega_star: Float[Array, "N"]) -> Float[Array, "N"]:      
         quadratic_integral, quartic_integral = self._lower_bound_integrals(p_x=p_x, y=y, W_i=W_i, a_i=a_i, omega_star=omega_star, compute_fourth_order=True)
-        omega_star = jnp.sqrt(quartic_integral / quadratic_integral)[0]
+        # a noise unit that does not load on y has a vanishing quadratic integral: keep the current value there (0/0 otherwise)
+        positive = quadratic_integral > 0.
+        ratio = quartic_integral / jnp.where(positive, quadratic_integral, 1.)
+        omega_star = jnp.where(positive, jnp.sqrt(ratio), omega_star)[0]
         return omega_star
     
 @dataclass(kw_only=True)
